@@ -32,6 +32,19 @@ C20OK(rec) ==
     IF rec.op = "stray" THEN rec.out = (IF StrayAborts(rec.f, rec.pos) THEN "abort" ELSE "ok") ELSE TRUE
 \* C16: a failed array allocation leaves the object empty, nothing leaked
 C16OK(rec) == (rec.op \in {"alloc", "set"} /\ \E k \in 1..Len(rec.ok) : ~rec.ok[k]) => C14OK(rec)
+ExtraOps == {"stray"}
+\* In a closure the records of one state are contiguous (field g on the first of them = how many): the operations the
+\* driver applied in that state must be exactly the model's own OpSet for it - no operation of the model is left
+\* untried on the real code in any reachable state, and the driver tries nothing the model does not know.
+\* (Recs[1] is the trace header: it carries the scope the driver was run with.)
+GroupOps(k, S) ==
+    LET names == {o.op : o \in S}
+        FieldsOf(nm) == DOMAIN (CHOOSE o \in S : o.op = nm)
+        J == {j \in k..(k + Recs[k].g - 1) : Recs[j].op \in names}
+    IN {[f \in FieldsOf(Recs[j].op) |-> Recs[j][f]] : j \in J}
+OpsOK(k) == LET rec == Recs[k]  S == OpSetF(Recs[1].maxn, Recs[1].faults) IN
+            ~Sane(rec.pre) \/ (/\ GroupOps(k, S) = S
+                               /\ \A j \in k..(k + rec.g - 1) : Recs[j].op \in {o.op : o \in S} \cup ExtraOps)
 VARIABLE i
 Judge(rec) ==
     /\ (IF Level # 2 \/ C16OK(rec) THEN TRUE ELSE PrintT(<<"L2FAIL", "C16", rec.id>>))
@@ -40,6 +53,7 @@ Judge(rec) ==
     /\ (IF Level # 1 \/ StepOK(rec) THEN TRUE ELSE PrintT(<<"L1DRIFT", "arr", rec.id>>))
 TInit == i = 1
 TNext == i < Len(Recs) /\ i' = i + 1 /\ Judge(Recs[i + 1])
+         /\ (IF Level # 1 \/ Recs[i + 1].g = 0 \/ OpsOK(i + 1) THEN TRUE ELSE PrintT(<<"OPSDIFF", "arr", Recs[i + 1].id>>))
 TSpec == TInit /\ [][TNext]_i
 Done == i = Len(Recs) => PrintT(<<"TRACE-END", i>>)
 =============================================================================
